@@ -253,4 +253,33 @@ func init() {
 		tp.Liveness = true
 		p.Transfer = tp
 	}, Run: func(env *Env, p *Plan) { RunTransfer(env, p.Transfer) }})
+
+	// C08: hostile peers attack the SUT in every state while an honest source keeps transferring
+	Register(&Scenario{Name: "hostile", Gen: func(r *simrt.Rand, tier string, p *Plan) {
+		tp := genTransferBase(r, tier)
+		np := numPiecesOf(tp.Layout)
+		tp.K.MaxMetadataSize = uint(simrt.Pick(r, []int{0, 64 << 10, 1 << 20}))
+		maxMsg := uint32(tp.K.MaxMetadataSize)
+		tp.FaultsStop = r.Dur(20*time.Second, 120*time.Second)
+		tp.DiskWriteLatMax = simrt.Pick(r, []time.Duration{time.Millisecond, 300 * time.Millisecond, 2 * time.Second})
+		hp := honestPeer(r, tp.Layout, "h0", np)
+		hp.At = r.Dur(0, tp.FaultsStop/2)
+		tp.Peers = append(tp.Peers, hp)
+		tp.Magnet = r.Chance(0.35)
+		tp.PreSeeded = !tp.Magnet && r.Chance(0.3)
+		for i := 0; i < r.Range(1, 4); i++ {
+			hs := &refbt.HostileSpec{Kind: simrt.Pick(r, []string{"oversize", "garbage", "valid", "valid", "mixed", "mixed", "truncate"}), N: r.Range(1, 200), Max: maxMsg, Nice: r.Chance(0.5)}
+			b := refbt.Behavior{Fast: r.Chance(0.6), Ext: r.Chance(0.8), HostileSpec: hs, MetaMode: "honest"}
+			ps := PeerSpec{Name: fmt.Sprintf("x%d", i), B: b, Mode: simrt.Pick(r, []string{"dial", "dial", "listen"}), At: r.Dur(0, tp.FaultsStop), Redial: r.Dur(200*time.Millisecond, 5*time.Second), Via: "manual"}
+			tp.Peers = append(tp.Peers, ps)
+		}
+		if r.Chance(0.3) {
+			t := r.Dur(0, tp.FaultsStop)
+			tp.Steps = append(tp.Steps, Step{At: t, Kind: "stop"}, Step{At: min(t+r.Dur(0, 5*time.Second), tp.FaultsStop), Kind: "start"})
+		}
+		tp.Bound = 2 * time.Hour
+		tp.Liveness = true
+		tp.LivenessProp = "C08"
+		p.Transfer = tp
+	}, Run: func(env *Env, p *Plan) { RunTransfer(env, p.Transfer) }})
 }
